@@ -2,7 +2,7 @@
    Only statements; proofs are in Proof/Sketch*.v. *)
 From Coq Require Import ZArith List Bool Lia.
 From Verif Require Import Base.Word64 Model.Sketch Proof.Nibble Proof.SketchP Proof.SketchT Proof.SketchR.
-From Verif Require Import Gen.Consts Gen.Kernels Proof.KernelSync.
+From Verif Require Import Gen.Consts Gen.Kernels Proof.KernelSync Proof.SketchSync.
 Import ListNotations.
 Open Scope Z_scope.
 
@@ -74,6 +74,28 @@ Theorem c17_kernels_in_sync :
      g_indexOf ch block o = indexOf ch block o).
 Proof. exact (conj sync_rehash (conj sync_next2Power (conj sync_masks sync_indexOf))). Qed.
 Print Assumptions c17_kernels_in_sync.
+
+(* ... and two methods with state: EnsureCapacity regenerated as a transformer of (len(Table), SampleSize, BlockMask,
+   Additions, fresh table?) and inc regenerated over the table word it touches agree with the model for every sketch,
+   every requested size up to 2^62, every word and every counter offset - "growing the sketch never shrinks its table",
+   the grow test (seeded changes C17c, C09c) and the saturation test of inc are tied to the source by proof *)
+Theorem c17_ensureCapacity_in_sync : forall (s : sketch) (size : Z),
+  0 <= size <= 2 ^ 62 ->
+  let r := g_EnsureCapacity (Z.of_nat (length (table s))) (sampleSize s) (blockMask s) (additions s) size in
+  let s' := ensureCapacity s size in
+  match r with
+  | (len', sample', mask', adds', fresh) =>
+      Z.of_nat (length (table s')) = len' /\ sampleSize s' = sample' /\ blockMask s' = mask' /\ additions s' = adds' /\
+      (fresh = 0 -> s' = s) /\ (fresh = 1 -> table s' = zeros len') /\ (fresh = 0 \/ fresh = 1)
+  end.
+Proof. exact sync_ensureCapacity. Qed.
+Print Assumptions c17_ensureCapacity_in_sync.
+
+Theorem c17_inc_in_sync : forall (t : list Z) (index off : Z), 0 <= off < 16 ->
+  let r := g_inc (nthZ t index) index off in
+  inc t index off = (if snd r then updZ t index (fst r) else t, snd r).
+Proof. exact sync_inc. Qed.
+Print Assumptions c17_inc_in_sync.
 
 (* non-vacuity: the initial sketch is well formed, and a concrete run meets the hypotheses *)
 Definition ns := Eval vm_compute in newSketch.
